@@ -64,6 +64,11 @@ class LDMService:
             subscriptions = self.subscriptions.copy()
         subscriptions_to_remove = set()
         for subscription in subscriptions:
+            # A subscription ended meanwhile (for instance from inside an earlier callback of this
+            # very attendance) is not notified any more
+            with self._lock:
+                if subscription not in self.subscriptions:
+                    continue
             # A consumer that deregistered is not notified any more
             if (
                 subscription.subscription_request.application_id
